@@ -1,7 +1,8 @@
 (* C04: assembly of the per-family lemmas. *)
 From Coq Require Import List NArith Bool Lia Arith.
+From SNT Require Import Decoder.SgrRef.
 From SNT Require Import Base.Outcome Automata.DfaData Automata.Tokenizer Automata.TokenizerTheorems.
-From SNT Require Import Decoder.EvModel Decoder.Printer Decoder.EvProd Decoder.EvProofs Decoder.EvFamilies Decoder.EvFamilies2 Decoder.EvXterm.
+From SNT Require Import Decoder.EvModel Decoder.Printer Decoder.EvProd Decoder.EvProofs Decoder.EvFamilies Decoder.EvFamilies2 Decoder.EvXterm Decoder.EvFaces.
 From SNT Require Import Gen.ProdDFA Gen.C04Keys.
 Import ListNotations.
 Local Open Scope N_scope.
@@ -11,7 +12,7 @@ Local Open Scope N_scope.
    correspondence run only *)
 Definition proved_family (r : report) : bool :=
   match r with
-  | RColor _ _ _ _ _ | RKittyImage _ _ _ | RTermcapOk _ _ | RTermcapFail _ _ => false
+  | RColor _ _ _ _ _ | RKittyImage _ _ _ | RTermcapOk _ _ | RTermcapFail _ _ | RSgr _ => false
   | _ => true
   end.
 
@@ -30,6 +31,7 @@ Proof.
   - apply single_decmode, Hwf.
   - apply single_da, Hwf.
   - apply single_paste, Hwf.
+  - apply single_facerep, Hwf.
 Qed.
 
 Theorem single_report r rest :
@@ -91,3 +93,11 @@ Theorem xterm_keys_decode k mods alt_form rest :
   wf decmode_all prod_key_table (RXterm k mods alt_form) = true ->
   prod_decode (print (RXterm k mods alt_form) ++ rest) = (EKey k mods :: fst (prod_decode rest), snd (prod_decode rest)).
 Proof. intros H. exact (decode_single _ _ rest (single_xterm k mods alt_form H)). Qed.
+
+Theorem sgr_event_decode p rest :
+  SgrRef.sgr_wf p = true -> SgrRef.sgr_inexpressible p = false ->
+  exists m, prod_decode (print (RSgr p) ++ rest) = (EFaceModify m :: fst (prod_decode rest), snd (prod_decode rest))
+            /\ forall r, SgrRef.rapply m r = SgrRef.ref_sgr p r.
+Proof.
+  intros Hwf Hx. destruct (sgr_event p Hwf Hx) as (m & Hs & Hsem). exists m. split; [apply decode_single, Hs| exact Hsem].
+Qed.
